@@ -7,6 +7,8 @@ mkdir -p work evidence
 python3 tools/gen_codepoints.py /repo lean/Rc/Gen/Codepoints.lean work/codepoint_fingerprints.json || true
 python3 tools/gen_wellknown.py /repo lean/Rc/Gen/Wellknown.lean || true
 python3 tools/gen_codepoints.py @check - --attr-flags lean/Rc/Gen/AttrFlags.lean --constants lean/Rc/Gen/Constants.lean || true
-(cd lean && lake build Rc rcdriver)
+# the theorem modules are built here once (each ./check re-runs `lake build Rc.Thm.Cxx`, a no-op unless a
+# generated table or a model changed), so that a check's wall time is the tie, not the first proof build
+(cd lean && lake build Rc rcdriver $(for i in 01 02 03 04 05 06 07 08 09 10 11 12 13 14 15 16 17 18 19 20; do echo Rc.Thm.C$i; done))
 (cd harness && cargo build)
 echo setup done
